@@ -8,6 +8,7 @@ CONSTANTS
   Kinds = {}
   RestartResizes = FALSE
   AnonModes = {FALSE}
+  Faults = TRUE
   AllowWindow = FALSE
   EmitEdges = TRUE
 INVARIANTS TypeOK Ordered NothingLost
